@@ -50,7 +50,7 @@ THEOREM_CLASSES = {
     "C14_int2str_str2int_roundtrip": "main",
     "C14_str2int_sound": "main", "C14_str2int_shape_separates": "corollary",
     "C14_todecsci_reads_back_partial": "main", "C14_todecsci_first_partial": "main",
-    "C14_emit_inf_guard": "tripwire",
+    "C14_emit_inf_guard": "tripwire", "C14_emit_f32_rounded_first": "tripwire",
     "C14_print_dot0_eq_lua": "main", "C14_force_fract_not_int_like": "main",
 }
 MANIFEST_ENTRY = {
@@ -68,7 +68,7 @@ MANIFEST_ENTRY = {
                  "with exact-arithmetic oracles",
 }
 UNPROVED = [
-    "float literals at the rounding boundaries of binary32 / binary64 (largest finite, the overflow threshold max + half ulp, smallest normal and subnormal, half the smallest subnormal; decimal and hexadecimal spellings, both signs; routes: type suffix, typed local, float64 compile-time constant converted) are sampled on every run and compared bit for bit with the correctly rounded value of the type computed in exact rational arithmetic - testing, no theorem; the only proved fact about the printer's infinity branch is the scraped trip-wire C14_emit_inf_guard",
+    "float literals at the rounding boundaries of binary32 / binary64 (largest finite, the overflow threshold max + half ulp, smallest normal and subnormal, half the smallest subnormal; decimal and hexadecimal spellings, both signs; routes: type suffix, typed local, float64 compile-time constant converted) are sampled on every run and compared bit for bit with the correctly rounded value of the type computed in exact rational arithmetic - testing, no theorem; the only proved facts about the float printer are the scraped trip-wires C14_emit_inf_guard and C14_emit_f32_rounded_first (the float32 constant is rounded to float32, overflow threshold FLT_MAX + half ulp, before its 9 digits are printed)",
     "DOCUMENTED LIMITATION, not a finding: a float32 literal is a binary64 at compile time, so a literal with more than 17 significant digits whose double is exactly a float32 tie is rounded twice by construction (counted per run under 'documented:float32-literal-is-binary64-at-compile-time'); integer literals above the int64 range without a suffix (print(0x8000000000000000), print(0xffffffffffffffff)) are REJECTED with a diagnostic where Lua wraps them - stricter than Lua, never a silently different value; cdefs.lua derives ldbl_decimal_dig from __DBL_DECIMAL_DIG__ (17): harmless for literals, whose compile-time value is a binary64 anyway",
     "every float clause: correctly rounded reading of decimal float literals (fraction, exponent, suffix) and of hexadecimal float literals (from(16,2,int,frac,exp) is now only a fall-back behind Lua's tonumber), float emission, run-time tonumber / tostring / print of floats: oracle only (Python Fractions); the planned verified 'nearest_ok' checker (Flocq) and 'hexfloat_exact' do not exist - Flocq 4.1.0 is installed but a decimal->binary64 checker needs the half-ulp argument or Fdiv_core + binary_round_aux, not attempted",
     "strconv.str2num: NOT correctly rounded (known finding); its algorithm is modelled only executably (harness/C14/str2num_model.py, bit-exact against the library on the normal range), with no theorem; strconv.num2str: oracle only",
@@ -292,7 +292,7 @@ def correspond(ctx):
     def viol(key, summary, detail, failing=True, kind="oracle"):
         allv.append("%s | %s" % (key, summary[:200]))
         problems["oracle" if failing else "model"] += 1
-        if key in STR2NUM_WITNESSES or key in STR2INT_WITNESSES or key in F32_TEXT_WITNESSES or key in HEXFLOAT_INT_WITNESSES:
+        if key in STR2NUM_WITNESSES or key in STR2INT_WITNESSES:
             ctx.violation(key, kind, summary, detail=detail, failing_input=failing)      # designated witnesses: always reported
             return
         capped["oracle" if failing else "model"] += 1
@@ -518,12 +518,6 @@ def correspond(ctx):
                     continue
                 gotbits = fbits(width, rnd_w(width, abs(fr)), txt.startswith("-"))
             if gotbits != want:
-                pred = fbits(32, f32_via_9_digits(abs(x)), neg) if width == 32 else None
-                if width == 32 and line not in F32_TEXT_WITNESSES and gotbits == pred \
-                        and any(l == F32_TEXT_WITNESSES[2] and not g.startswith("16777218") for l, g in zip(impl_lines, il)):
-                    k = "predicted-by-model:cemitter.add_scalar_literal:float32-through-9-digits(double constant)"
-                    dist[k] = dist.get(k, 0) + 1
-                    continue
                 viol(line, "float%d constant %r is emitted as '%s', which a C compiler reads as %s; the value converted to the type is %s" % (width, x, got, gotbits, want),
                      {"case": line, "implementation": got, "oracle": want})
             elif not re.search(r"[.eE]|inf|nan", txt):
@@ -770,8 +764,8 @@ def prune_work(ctx, max_age=7200):
 # float literals at the rounding boundaries of binary32 / binary64
 # --------------------------------------------------------------------------------------------
 FMT = {32: (24, -126, 127), 64: (53, -1022, 1023)}
-# OPEN finding (exact keys): a float32 constant is printed with 9 significant digits of the DOUBLE it was read as; when
-# that double is not a float32 value the 9-digit text can land on the other side of a float32 rounding boundary
+# REPAIRED (2e78fcf): a float32 constant was printed with 9 significant digits of the DOUBLE it was read as; the constant is
+# now rounded to float32 first.  Regression cases (part of the boundary streams): they must be correct
 F32_TEXT_WITNESSES = ["lit32 A 16777217.000001", "lit32 A 0x1.fffffefffffffp+127", "emitf float32 417000001000010c"]
 
 
@@ -794,14 +788,6 @@ def rnd_w(width, fr):
     """correct rounding of a non-negative Fraction to the format: Fraction or None (infinity)"""
     pb, emin, emax = FMT[width]
     return round_binary(fr, pb, emin, emax)
-
-
-def f32_via_9_digits(d):
-    """model of the UNCHANGED emitter for a float32 constant whose compile-time value is the double d >= 0: bn.todecsci with
-    9 significant digits (no ladder below 16 digits), read by the C compiler as a float constant"""
-    if d == float("inf"):
-        return None
-    return rnd_w(32, Fraction(Decimal("%.9g" % d)))
 
 
 def dec_down_up(fr, nd):
@@ -868,6 +854,7 @@ def boundary_literals(width):
     return out
 
 
+# REPAIRED (98daa0d): regression cases, must compile and print the value
 HEXFLOAT_INT_WITNESSES = ["compile local a: int32 = 0x1p4", "compile local a: int32 = 0x1.8p1"]
 
 
@@ -923,8 +910,6 @@ def boundary_probe(ctx, viol, nontrivial, dist):
                     else:
                         want = rnd_w(width, fr)
                     pred = want
-                    if width == 32:
-                        pred = None if d is None else f32_via_9_digits(float(d))
                     n += 1
                     if route == "A":
                         src.append("b%d(%s_f%d)" % (width, lit, width))
@@ -955,9 +940,6 @@ def boundary_probe(ctx, viol, nontrivial, dist):
     if rc != 0 or len(outs) < len(cases):
         viol("boundary-probe", "the boundary probe program printed %d lines for %d literals (rc %s)" % (len(outs), len(cases), rc), {"stderr": e[-500:]}, failing=False, kind="harness")
         return 0
-    got_by_key = {c[0]: g for c, g in zip(cases, outs)}
-    w0 = F32_TEXT_WITNESSES[0]
-    witness_fails = any(c[0] == w0 and got_by_key[w0] != c[5] for c in cases)
     for (key, width, route, neg, lit, want, pred), got in zip(cases, outs):
         dist["boundary-probe"] = dist.get("boundary-probe", 0) + 1
         if got == want:
@@ -967,13 +949,9 @@ def boundary_probe(ctx, viol, nontrivial, dist):
             # 17 digits whose double is exactly a float32 tie is rounded twice by construction
             k = "documented:float32-literal-is-binary64-at-compile-time(two roundings)"
             dist[k] = dist.get(k, 0) + 1
-        elif key not in F32_TEXT_WITNESSES and width == 32 and got == pred and witness_fails:
-            # exactly what the model of the unchanged emitter (9 significant digits of the double, read as a float constant) gives
-            k = "predicted-by-model:cemitter.add_scalar_literal:float32-through-9-digits(double constant)"
-            dist[k] = dist.get(k, 0) + 1
         else:
             viol(key, "%s literal %s (route %s) reaches the program as %s, the correctly rounded value of the type is %s" % ("float%d" % width, lit, route, got, want),
-                 {"case": key, "implementation": got, "oracle": want, "model_of_unchanged_emitter": pred})
+                 {"case": key, "implementation": got, "oracle": want})
     return len(cases)
 
 
